@@ -9,7 +9,7 @@ MANIFEST = {
     "C06": {
         "technique": "Lean 4 proof (copy-on-write heap model of String: reference-count invariant, refinement of every mutating call to independent byte-list values, terminator/foreign-memory invariants, libc search functions against declarative references) + differential correspondence model vs real String.hpp/String.cpp under ASan/UBSan with an independent Python bytes oracle",
         "text": "Theorems over all operation histories of the Lean model of String (lazy-copy heap with reference counts, literal/attached foreign memory, detach with capacity rule); the model is tied to the current String.hpp/String.cpp on every run by executing identical op lines on both (exhaustive small scope incl. self arguments, every small byte string as argument of every query, random histories of up to 60 ops over 4 variables) and by an independent Python `bytes` reference.",
-        "note": "Proved in Lean (Props.lean, all for every number of variables, every foreign-memory content and every history): reference counts exact (refcount_exact), refinement of all 29 mutating calls to independent byte lists (refines, run_total) on the domain of the specification (calls that branch on chars get specified chars, C-string based calls NUL-free values), independence of copies incl. self arguments (independent), literal/attached memory and guard byte never written (foreign_untouched), owned text always NUL-terminated and the C string view terminated (owned_terminated, cstr_terminated), absence of faults and termination of every mutating call under exactly stated preconditions (no_fault, run_total) and of the comparisons/searches/split (no_fault_queries), (no_fault_queries, no_fault_queries_from), query results against declarative references (find/findLast/findOneOf/findLastOf/compare/compare(n)/compareIgnoreCase/equalsIgnoreCase/trim/split/find(char)/==/startsWith/endsWith/start-index searches/toBool). plus compareIgnoreCase(n), hash, the generated case maps (case_maps), the extended operations with the shared token list and String(ptr,len) operands (xrefines) and own-pointer arguments (prepend_alias_safe, append_alias_reserved, alias_append_faults). No OPEN item. Precondition stated in the theorems: (ptr,len)/const char* arguments do not point into the storage of the String being modified (String.hpp promises nothing; append with such a pointer is a use-after-free when it reallocates). Case maps, capacity mask, printf buffer and replace slack are regenerated from the sources by tools/gen_str.py. Trusted: Lean kernel + the three standard axioms; the hand translation of String.hpp/String.cpp (with fixes/str applied) into the model, validated by the correspondence run, not proved; libc (strstr, strpbrk, strchr, memcmp, vsnprintf for %d %u %lld %llu %s %c) as Lean definitions of C-standard behaviour on NUL-terminated inputs; checked-memory abstraction (blocks are separate; uninitialised chars may be copied but not branched on; chars exposed by in-place growth are treated as unspecified; the partial output of printf's first vsnprintf attempt is not modelled since the second one overwrites it); pointer arguments (ptr,len / const char*) do not alias the string's own storage; allocation never fails; one thread (reference counts are plain numbers).",
+        "note": "Proved in Lean (Props.lean, all for every number of variables, every foreign-memory content and every history): reference counts exact (refcount_exact), refinement of all 29 mutating calls to independent byte lists (refines, run_total) on the domain of the specification (calls that branch on chars get specified chars, C-string based calls NUL-free values), independence of copies incl. self arguments (independent), literal/attached memory and guard byte never written (foreign_untouched), owned text always NUL-terminated and the C string view terminated (owned_terminated, cstr_terminated), absence of faults and termination of every mutating call under exactly stated preconditions (no_fault, run_total) and of the comparisons/searches/split (no_fault_queries), (no_fault_queries, no_fault_queries_from), query results against declarative references (find/findLast/findOneOf/findLastOf/compare/compare(n)/compareIgnoreCase/equalsIgnoreCase/trim/split/find(char)/==/startsWith/endsWith/start-index searches/toBool). plus compareIgnoreCase(n), hash, the generated case maps (case_maps), the extended operations with the shared token list and String(ptr,len) operands (xrefines) and own-pointer arguments (prepend_alias_safe, append_alias_reserved, alias_append_faults). token(sep, start) with its new start and the iteration = split law (token_spec, token_iteration_spec), substr clamping stated independently (substr_spec); all theorems assume only the invariant Good, which is closed under every call incl. queries and extended operations (good_closed). No OPEN item. Precondition stated in the theorems: (ptr,len)/const char* arguments do not point into the storage of the String being modified (String.hpp promises nothing; append with such a pointer is a use-after-free when it reallocates). Case maps, capacity mask, printf buffer and replace slack are regenerated from the sources by tools/gen_str.py. Trusted: Lean kernel + the three standard axioms; the hand translation of String.hpp/String.cpp (with fixes/str applied) into the model, validated by the correspondence run, not proved; libc (strstr, strpbrk, strchr, memcmp, vsnprintf for %d %u %lld %llu %s %c) as Lean definitions of C-standard behaviour on NUL-terminated inputs; checked-memory abstraction (blocks are separate; uninitialised chars may be copied but not branched on; chars exposed by in-place growth are treated as unspecified; the partial output of printf's first vsnprintf attempt is not modelled since the second one overwrites it); pointer arguments (ptr,len / const char*) do not alias the string's own storage; allocation never fails; one thread (reference counts are plain numbers).",
         "design_ref": "DESIGN.md 3/C06",
     }
 }
